@@ -286,6 +286,10 @@ def cli_stream(chk, n, prop):
         src = os.path.join(root, "s r c")
         os.makedirs(src)
         entries = G.gen_resultset(rng, big=rng.random() < 0.3, branch_only=True, root_files=rng.random() < 0.3, abs_paths=False)
+        if i % 6 == 0:
+            for e in entries[:1]:
+                if e[2]["funcs"]:
+                    e[2]["funcs"][0][1], e[2]["funcs"][0][2] = 0, True      # an executed function recorded at line 0 (FN:0,name)
         branch = rng.random() < 0.65
         no_demangle = rng.random() < 0.5
         prec = rng.choice([None, 0, 1, 2, 3, 4, 4])
